@@ -84,7 +84,7 @@ def execute_delivers(ctx: Ctx, rep: Report, rule: str):
             rep.check(ok, rule, "execute:fail:%s" % p.describe(4), ex.loc(p.end_node), "execute fails the request with RequestFailedException when the future's result is None",
                       bad="ProtocolCommand.execute raises %s %s: a request whose future was completed with an accepted frame fails [path %s]" % (
                           prog.exc_name(p.end_data), "although the result was found to be not None" if isnone is False else "without testing the result against None", p.describe(6)))
-    if nret == 0:
+    if nret == 0 and not rep.violations():
         raise AnalysisError("ProtocolCommand.execute has no returning path")
 
 
